@@ -408,12 +408,19 @@ def filterValidated (keysFilter : Bool) (s : Src) : Bool :=
   if s.k.cls = .hc then true
   else if keysFilter ∧ s.k.cls ≠ .hd then false else s.k.validated
 
-def filtered (s : Src) (sel : Nat → Bool) (keysFilter : Bool) (ap : Option (List Nat) := none) :
-    Except Err NewSpec :=
+/-- `sorted(zip(datetimes, values), key=position of the datetime in the period)` (stable). -/
+def sortByKeys (order : List Nat) (d : List Nat) (v : List Rat) : List Nat × List Rat :=
+  let pairs := (d.zip v).mergeSort fun a b => order.idxOf a.1 ≤ order.idxOf b.1
+  (pairs.map (·.1), pairs.map (·.2))
+
+def filtered (s : Src) (sel : Nat → Bool) (keysFilter : Bool) (ap : Option (List Nat) := none)
+    (order : Option (List Nat) := none) : Except Err NewSpec :=
   let v := keep s.vals sel
   let d := keep s.k.dts sel
   if v.isEmpty then .error .assert
-  else .ok ⟨dupHdr s none ap, newVals true v, d, true, filterCls s.k.cls, filterValidated keysFilter s⟩
+  else
+    let dv := match order with | some o => sortByKeys o d v | none => (d, v)
+    .ok ⟨dupHdr s none ap, newVals true dv.2, dv.1, true, filterCls s.k.cls, filterValidated keysFilter s⟩
 
 /-- The key used by the model for the metadata entry `'operation'`. -/
 def opKey : Nat := 0
@@ -541,8 +548,9 @@ def specOf (m : Mode) (h : Heap) (c : Ref) (op : DOp) : Except Err NewSpec := do
       let sel := fun i => match s.k.dts[i]? with | some d => keys.contains d | none => false
       pure ⟨dupHdr s none (some ap), newVals true (keep s.vals sel), keep s.k.dts sel, true, .hc, true⟩
     else
+      -- a discontinuous hourly collection returns its data in the time order of the period (41bd364)
       filtered s (fun i => match s.k.dts[i]? with | some d => keys.contains d | none => false) true
-        (some ap)
+        (some ap) (if s.k.cls = .hd then some keys else none)
   | .cull ts =>
     if ¬ isHourly s.k.cls then .error .attr
     else if ¬ validTs ts then .error .assert
@@ -642,6 +650,10 @@ inductive MOp
   | metaAppend (k : Nat) (x : MV)
   /-- `coll.values = lst` with a list object the caller holds -/
   | setValuesRef (r : Ref)
+  /-- internal to `EPW.to_file_string`: `v.append(v.pop(0))` / `v.insert(0, v.pop())` on `_values` -/
+  | rotate (left : Bool)
+  /-- harness only (`del coll._values[n:]`, to reach the failing path of the EPW export) -/
+  | truncate (n : Nat)
 deriving Repr
 
 /-- Replace the values of `c` by a new list cell and set the header's unit in place. -/
@@ -649,6 +661,11 @@ def convertTo (h : Heap) (c : Ref) (s : Src) (u : Nat) : Heap :=
   let (h1, rv) := h.alloc (.vals (convVals s.hd.unit u s.vals) false)
   let h2 := h1.write c (.coll { s.k with vals := rv })
   h2.write s.k.hdr (.hdr { s.hd with unit := u })
+
+/-- `v.append(v.pop(0))` -/
+def rotL (v : List Rat) : List Rat := v.drop 1 ++ v.take 1
+/-- `v.insert(0, v.pop())` -/
+def rotR (v : List Rat) : List Rat := v.getLast?.toList ++ v.dropLast
 
 /-- `values = v`: checks, then `self._values = list(v)`. -/
 def setVals (h : Heap) (c : Ref) (s : Src) (v : List Rat) : Except Err Heap :=
@@ -702,6 +719,12 @@ def mutate (m : Mode) (h : Heap) (c : Ref) (op : MOp) : Except Err Heap := do
     let p := allocMd h nm
     let pm := p.1.alloc (.md p.2)
     pure (pm.1.write s.k.hdr (.hdr { s.hd with md := pm.2 }))
+  | .rotate left =>
+    if ¬ s.k.isMut then .error .attr
+    else pure (h.write s.k.vals (.vals (if left then rotL s.vals else rotR s.vals) s.tuple))
+  | .truncate n =>
+    if ¬ s.k.isMut then .error .attr
+    else pure (h.write s.k.vals (.vals (s.vals.take n) s.tuple))
   | .metaAppend k x =>
     match s.rmd.find? (·.1 = k) with
     | none => .error .key
@@ -847,11 +870,16 @@ def getComp (h : Heap) (c : Ref) : Option Comp :=
 def weaMd (loc : List MV) : List (Nat × OV) :=
   [(5, .tok (loc.getD 0 "?")), (7, .tok (loc.getD 1 "?")), (6, .tok (loc.getD 2 "?"))]
 
+/-- A composite object around existing member collections: its own (new) metadata dict and cell. -/
+def mkComp (h : Heap) (kind : Nat) (tags : List Nat) (shared : List Ref) (md : List (Nat × OV))
+    (members : List Ref) : Heap × Ref :=
+  let pm := allocMeta h (.new md)
+  pm.1.alloc (.comp ⟨kind, tags, pm.2, shared, members⟩)
+
 /-- Assemble a Wea around two member collections: its own metadata dict (built from the Location) and
     the Location (a new object or an existing one). -/
 def mkWeaAt (pl : Heap × Ref) (tags : List Nat) (md : List (Nat × OV)) (d f : Ref) : Heap × Ref :=
-  let pm := allocMeta pl.1 (.new md)
-  pm.1.alloc (.comp ⟨0, tags, pm.2, [pl.2], [d, f]⟩)
+  mkComp pl.1 0 tags [pl.2] md [d, f]
 
 def mkWea (h : Heap) (tags : List Nat) (loc : Sum Ref (List MV))
     (md : List (Nat × OV)) (d f : Ref) : Heap × Ref :=
@@ -954,6 +982,96 @@ def compMember (h : Heap) (w : Ref) (i : Nat) (op : MOp) : Except Err Heap :=
     match x.members[i]? with
     | some mb => mutate .fixed h mb op
     | none => .error .index
+  | none => .error .type
+
+/-! ### EPW: an IP flag, a metadata dict and its field collections (modelled: the two temperature fields) -/
+
+def foldMembers (f : Heap → Ref → Except Err Heap) : Heap → List Ref → Except Err Heap
+  | h, [] => .ok h
+  | h, mb :: rest =>
+    match f h mb with
+    | .ok h1 => foldMembers f h1 rest
+    | .error e => .error e
+
+/-- A sequence of in-place steps on one collection. -/
+def mutSeq (h : Heap) (mb : Ref) : List MOp → Except Err Heap
+  | [] => .ok h
+  | op :: rest =>
+    match mutate .fixed h mb op with
+    | .ok h1 => mutSeq h1 mb rest
+    | .error e => .error e
+
+def compSetTags (h : Heap) (w : Ref) (tags : List Nat) : Except Err Heap :=
+  match getComp h w with
+  | some x => .ok (h.write w (.comp { x with tags := tags }))
+  | none => .error .type
+
+/-- `EPW.from_missing_values()` with the two temperature fields filled in: every field has its own
+    header and metadata dict, all share one AnalysisPeriod object. -/
+def epwNew (h : Heap) (ap dts : List Nat) (db dp : List Rat) : Except Err (Heap × Ref) :=
+  if db.length ≠ dts.length ∨ dp.length ≠ dts.length then .error .assert
+  else
+    let p1 := mkColl h ⟨.new 0 0 (.new ap) (.new []), newVals true db, dts, true, .hc, true⟩
+    match (foot p1.1 p1.2).map (·.ap) with
+    | none => .error .type
+    | some ra =>
+      let p2 := mkColl p1.1 ⟨.new 0 0 (.share ra) (.new []), newVals true dp, dts, true, .hc, true⟩
+      .ok (mkComp p2.1 1 [0] [] [] [p1.2, p2.2])
+
+def epwIsIp (x : Comp) : Bool := x.tags.getD 0 0 = 1
+
+/-- `EPW.convert_to_ip()` / `convert_to_si()`: every field collection is converted in place. -/
+def epwConvert (h : Heap) (e : Ref) (toIp : Bool) : Except Err Heap :=
+  match getComp h e with
+  | some x =>
+    if epwIsIp x = toIp then .ok h
+    else
+      match foldMembers (fun h mb => mutSeq h mb [if toIp then .convIp else .convSi]) h x.members with
+      | .ok h1 => compSetTags h1 e [if toIp then 1 else 0]
+      | .error er => .error er
+  | none => .error .type
+
+/-- What `EPW.to_file_string` does to one (point-in-time) field: to SI if the object is IP, rotate the
+    list, (write), rotate it back, back to IP – the last two in a `finally` block (f030132). -/
+def exportOps (ip : Bool) : List MOp :=
+  (if ip then [.convSi] else []) ++ [.rotate true, .rotate false] ++ (if ip then [.convIp] else [])
+
+def exportCycle (ip : Bool) (h : Heap) (mb : Ref) : Except Err Heap := mutSeq h mb (exportOps ip)
+
+/-- `EPW.to_file_string()`: `(exported, heap)`; `exported = false` is the `ValueError` of data that is
+    not a full year – the object is restored in both cases. -/
+def epwToFileString (h : Heap) (e : Ref) : Except Err (Bool × Heap) :=
+  match getComp h e with
+  | some x =>
+    match foldMembers (exportCycle (epwIsIp x)) h x.members with
+    | .ok h' =>
+      .ok (x.members.all (fun mb => match src h mb with | .ok s => decide (8760 ≤ s.vals.length) | _ => false), h')
+    | .error er => .error er
+  | none => .error .type
+
+/-- What `EPW.to_wea` does to a field: to SI and back (try/finally, 77cbf95). -/
+def weaOps (ip : Bool) : List MOp := if ip then [.convSi, .convIp] else []
+
+def weaCycle (ip : Bool) (h : Heap) (mb : Ref) : Except Err Heap := mutSeq h mb (weaOps ip)
+
+/-- `EPW.to_wea(path, hoys)`: `exported = false` is the IndexError of an hour that is not in the data. -/
+def epwToWea (h : Heap) (e : Ref) (hoys : List Nat) : Except Err (Bool × Heap) :=
+  match getComp h e with
+  | some x =>
+    match foldMembers (weaCycle (epwIsIp x)) h x.members with
+    | .ok h' => .ok (hoys.all (· < 8760), h')
+    | .error er => .error er
+  | none => .error .type
+
+/-- `EPW.sky_temperature`: a new collection with a new annual period and (repaired) its own copy of the
+    EPW's metadata dict; values are payload. -/
+def epwSky (h : Heap) (e : Ref) (ap dts : List Nat) (vals : List Rat) : Except Err (Heap × Ref) :=
+  match getComp h e with
+  | some x =>
+    match h.cells x.md with
+    | some (.md m) =>
+      .ok (mkColl h ⟨.new 0 0 (.new ap) (.new (obsMeta h.cells m)), newVals true vals, dts, true, .hc, true⟩)
+    | _ => .error .type
   | none => .error .type
 
 /-- `wea.metadata[k] = v`. -/
